@@ -21,6 +21,7 @@ import (
 	"go/token"
 	"os"
 	"path/filepath"
+	"sort"
 	"strings"
 )
 
@@ -199,6 +200,152 @@ func effects(node ast.Node, inline map[string][]string, where string) []string {
 	return out
 }
 
+// ---- what the import path reads and writes (round 3) ----
+//
+// importReads lists, for every function reachable by name from ImportModuleLevelObject inside
+// py/import.go, py/module.go, py/run.go and stdlib/stdlib.go:
+//   - every field of the structs declared in those files that is selected (X.f, not a method call),
+//   - every package-level variable of those files that is mentioned,
+//   - every string-literal key a map is indexed with ("path", "__file__", ...),
+//   - every function of package os that is called (the file system / working directory).
+//
+// The list is pinned in Lean against the components of the model's state: a new cache consulted by
+// the import path shows up as a new entry.
+func importReads(repo string) []string {
+	fset := token.NewFileSet()
+	files := []string{"py/import.go", "py/module.go", "py/run.go", "stdlib/stdlib.go"}
+	type fn struct {
+		recv, name string
+		body       *ast.BlockStmt
+	}
+	var fns []fn
+	fieldOwners := map[string][]string{} // field name -> structs declaring it
+	pkgVars := map[string]string{}       // variable name -> package dir
+	for _, rel := range files {
+		f, err := parser.ParseFile(fset, filepath.Join(repo, rel), nil, 0)
+		if err != nil {
+			die("cannot parse %s: %v", rel, err)
+		}
+		pkg := filepath.Dir(rel)
+		for _, d := range f.Decls {
+			switch x := d.(type) {
+			case *ast.FuncDecl:
+				if x.Body == nil {
+					continue
+				}
+				r := ""
+				if x.Recv != nil && len(x.Recv.List) == 1 {
+					t := x.Recv.List[0].Type
+					if s, ok := t.(*ast.StarExpr); ok {
+						t = s.X
+					}
+					if id, ok := t.(*ast.Ident); ok {
+						r = id.Name
+					}
+				}
+				fns = append(fns, fn{r, x.Name.Name, x.Body})
+			case *ast.GenDecl:
+				for _, sp := range x.Specs {
+					switch y := sp.(type) {
+					case *ast.TypeSpec:
+						if st, ok := y.Type.(*ast.StructType); ok {
+							for _, fl := range st.Fields.List {
+								for _, n := range fl.Names {
+									fieldOwners[n.Name] = append(fieldOwners[n.Name], y.Name.Name)
+								}
+							}
+						}
+					case *ast.ValueSpec:
+						if x.Tok == token.VAR {
+							for _, n := range y.Names {
+								pkgVars[n.Name] = pkg
+							}
+						}
+					}
+				}
+			}
+		}
+	}
+	// closure of callee names starting at ImportModuleLevelObject
+	byName := map[string][]fn{}
+	for _, f := range fns {
+		byName[f.name] = append(byName[f.name], f)
+	}
+	onPath := map[string]bool{}
+	work := []string{"ImportModuleLevelObject"}
+	for len(work) > 0 {
+		n := work[len(work)-1]
+		work = work[:len(work)-1]
+		if onPath[n] {
+			continue
+		}
+		if _, ok := byName[n]; !ok {
+			continue
+		}
+		onPath[n] = true
+		for _, f := range byName[n] {
+			ast.Inspect(f.body, func(c ast.Node) bool {
+				if call, ok := c.(*ast.CallExpr); ok {
+					if cn := callName(call); cn != "" && !onPath[cn] {
+						work = append(work, cn)
+					}
+				}
+				return true
+			})
+		}
+	}
+	set := map[string]bool{}
+	for n := range onPath {
+		for _, f := range byName[n] {
+			calls := map[ast.Expr]bool{}
+			ast.Inspect(f.body, func(c ast.Node) bool {
+				switch x := c.(type) {
+				case *ast.CallExpr:
+					calls[x.Fun] = true
+					if sel, ok := x.Fun.(*ast.SelectorExpr); ok {
+						if id, ok := sel.X.(*ast.Ident); ok && id.Name == "os" {
+							set["os."+sel.Sel.Name] = true
+						}
+					}
+				case *ast.SelectorExpr:
+					if calls[x] {
+						return true
+					}
+					if owners, ok := fieldOwners[x.Sel.Name]; ok {
+						o := append([]string{}, owners...)
+						sort.Strings(o)
+						set[strings.Join(o, "|")+"."+x.Sel.Name] = true
+					}
+				case *ast.Ident:
+					if p, ok := pkgVars[x.Name]; ok && x.Obj != nil && x.Obj.Kind == ast.Var {
+						if _, isSpec := x.Obj.Decl.(*ast.ValueSpec); isSpec {
+							set["var:"+p+"."+x.Name] = true
+						}
+					}
+				case *ast.IndexExpr:
+					if lit, ok := x.Index.(*ast.BasicLit); ok && lit.Kind == token.STRING {
+						set["key:"+strings.Trim(lit.Value, "\"")] = true
+					}
+				}
+				return true
+			})
+		}
+	}
+	// the functions themselves, so that the reader of the evidence sees what was walked
+	names := []string{}
+	for n := range onPath {
+		names = append(names, n)
+	}
+	sort.Strings(names)
+	fmt.Printf("importPath=%v\n", names)
+	out := []string{}
+	for k := range set {
+		out = append(out, k)
+	}
+	sort.Strings(out)
+	return out
+}
+
 func leanList(e []string) string {
 	p := make([]string, len(e))
 	for i, x := range e {
@@ -297,6 +444,13 @@ func main() {
 	b.WriteString("  moduleInit := " + leanList(effInit) + "\n")
 	b.WriteString("  importGo := " + leanList(effGo) + "\n")
 	b.WriteString("  importFile := " + leanList(effFile) + "\n")
+	reads := importReads(*repo)
+	q := make([]string, len(reads))
+	for i, r := range reads {
+		q[i] = fmt.Sprintf("%q", r)
+	}
+	b.WriteString("\n/-- every struct field / package-level variable / literal map key / os call on the import path\n(functions reachable by name from ImportModuleLevelObject in py/import.go, py/module.go, py/run.go, stdlib/stdlib.go) -/\n")
+	b.WriteString("def importReads : List String :=\n  [" + strings.Join(q, ",\n   ") + "]\n")
 	b.WriteString("\nend GPy.C19.Generated\n")
 	old, _ := os.ReadFile(*out)
 	if string(old) != b.String() {
@@ -305,4 +459,5 @@ func main() {
 		}
 	}
 	fmt.Printf("moduleInit=%v importGo=%v importFile=%v\n", effInit, effGo, effFile)
+	fmt.Printf("importReads=%s\n", strings.Join(reads, " "))
 }
